@@ -6,6 +6,7 @@ import (
 	"math/big"
 	"runtime/debug"
 	"sort"
+	"strconv"
 	"strings"
 
 	"golang.org/x/tools/go/ssa"
@@ -25,6 +26,7 @@ type Obligation struct {
 	Bounded  string
 	Probe    bool // vacuity probe (expected sat), not counted as proof obligation
 	Refine   []*Term
+	Small    []*Term // "prefer a small counterexample" constraints (slice lengths within the replay window)
 	Contract *Contract
 }
 
@@ -153,6 +155,20 @@ func (p *Program) VerifyFunc(c *Contract) (res *FuncResult) {
 	sort.Strings(res.UsedAssumed)
 	sort.Strings(res.UsedVerified)
 
+	// constraints that make a counterexample small enough to replay
+	var small []*Term
+	for _, nm := range res.ParamNames {
+		switch v := vars[nm].(type) {
+		case SliceV:
+			if v.Region != nil {
+				small = append(small, ex.le(v.Len, ex.idxConst(40)))
+			}
+		case Scalar:
+			if v.T.S.K == SBV && v.T.S.W == 64 {
+				small = append(small, BVCmp("bvsle", v.T, BVC(big.NewInt(1<<20), 64)), BVCmp("bvsge", v.T, BVC(big.NewInt(-(1<<20)), 64)))
+			}
+		}
+	}
 	mk := func(name string, tags []string, expect string, clause string, asserts ...*Term) *Obligation {
 		q := &Query{Defs: ex.Defs, GetVals: ex.Inputs}
 		var fnames []string
@@ -169,8 +185,33 @@ func (p *Program) VerifyFunc(c *Contract) (res *FuncResult) {
 			q.Asserts = append(q.Asserts, NLMulComm...)
 		}
 		q.Asserts = append(q.Asserts, asserts...)
+		if ex.Mode == ModeBV && len(ex.Funs) == 0 {
+			// quantifier-free bit-vector/array goals: naming the logic lets the solvers pick their bit-blasting tactics
+			qf := true
+			for _, a := range q.Asserts {
+				if strings.Contains(a.String(), "forall") || strings.Contains(a.String(), "exists") {
+					qf = false
+					break
+				}
+			}
+			if qf {
+				intUsed := false
+				for _, a := range q.Asserts {
+					m := map[string]Sort{}
+					CollectSyms(a, m)
+					for _, srt := range m {
+						if srt.K == SInt {
+							intUsed = true
+						}
+					}
+				}
+				if !intUsed {
+					q.Logic = "QF_AUFBV"
+				}
+			}
+		}
 		o := &Obligation{Func: c.Key, Short: name, Name: c.Key + "#" + name, Tags: tags, Expect: expect, Query: q,
-			Mode: c.Mode, Inputs: ex.Inputs, Clause: clause, Bounded: c.Bounded, Contract: c, Refine: ex.Refine}
+			Mode: c.Mode, Inputs: ex.Inputs, Clause: clause, Bounded: c.Bounded, Contract: c, Refine: ex.Refine, Small: small}
 		if o.Mode == "" {
 			o.Mode = "int"
 		}
@@ -232,6 +273,45 @@ func (p *Program) VerifyFunc(c *Contract) (res *FuncResult) {
 		}
 		if en.Src == "true" {
 			continue // schema slot left empty for this type
+		}
+		if len(c.Cases) > 0 {
+			var cs []*Term
+			for _, cc := range c.Cases {
+				cs = append(cs, env.termBool(cc.Expr))
+			}
+			groups := [][]*Term{alts}
+			if n, err := strconv.Atoi(c.Options["split"]); err == nil && n > 0 && len(alts) > n {
+				groups = nil
+				for g := 0; g*n < len(alts); g++ {
+					hi := (g + 1) * n
+					if hi > len(alts) {
+						hi = len(alts)
+					}
+					groups = append(groups, alts[g*n:hi])
+				}
+			}
+			for gi, grp := range groups {
+				gs := ""
+				if len(groups) > 1 {
+					gs = fmt.Sprintf(".g%d", gi+1)
+				}
+				for k, ct := range cs {
+					mk(fmt.Sprintf("post.%d%s.c%d", i+1, gs, k+1), en.Tags, "unsat", "ensures "+en.Src+" [case "+c.Cases[k].Src+"]", ct, Or(grp...))
+				}
+				mk(fmt.Sprintf("post.%d%s.c0", i+1, gs), en.Tags, "unsat", "ensures "+en.Src+" [no listed case]", Not(Or(cs...)), Or(grp...))
+			}
+			continue
+		}
+		if n, err := strconv.Atoi(c.Options["split"]); err == nil && n > 0 && len(alts) > n {
+			// option split=N: one obligation per group of N exit paths (keeps each query small)
+			for g := 0; g*n < len(alts); g++ {
+				hi := (g + 1) * n
+				if hi > len(alts) {
+					hi = len(alts)
+				}
+				mk(fmt.Sprintf("post.%d.g%d", i+1, g+1), en.Tags, "unsat", "ensures "+en.Src, Or(alts[g*n:hi]...))
+			}
+			continue
 		}
 		mk(fmt.Sprintf("post.%d", i+1), en.Tags, "unsat", "ensures "+en.Src, Or(alts...))
 	}
